@@ -384,6 +384,10 @@ fn random_blocks_for_loader(r: &mut Rng) -> Vec<Vec<u8>> {
             let data = r.bytes(dl);
             let flag = *r.pick(&[0x00u8, 0xFF, 0xFF, 0x12]);
             let mut b = good_block(flag, &data);
+            // a length word of 0: a block without even a flag byte (legal in the file format; the ROM finds no byte)
+            if r.chance(1, 10) {
+                return vec![];
+            }
             match r.below(8) {
                 0 => {
                     let k = b.len() - 1;
@@ -402,6 +406,7 @@ fn random_blocks_for_loader(r: &mut Rng) -> Vec<Vec<u8>> {
 
 fn request_for(r: &mut Rng, blk: Option<&Vec<u8>>) -> Req {
     let (flag, dl) = match blk {
+        Some(b) if b.is_empty() => (0xFF, 0),
         Some(b) => (b[0], b.len().saturating_sub(2)),
         None => (0xFF, 10),
     };
@@ -607,6 +612,154 @@ fn quiet_wait(emu: &mut Emu, _r: &mut Rng) {
     let _ = emu.emulate_frames(std::time::Duration::from_secs(1000));
 }
 
+/// C11 / C12 on the whole machine: the deck is driven through the emulator's own API while the CPU runs a program
+/// of a given instruction mix (busy, NOPs, DJNZ loops, halted between interrupts); the EAR level is sampled after
+/// every instruction (hook `verif_tape`), so a pulse is measured to within the longest instruction (SLACK)
+fn emudeck(out: &mut Out, r: &mut Rng, runs: u64) {
+    use std::collections::VecDeque;
+    const SLACK: usize = 28;
+    for ri in 0..runs {
+        let m128 = ri % 2 == 1;
+        let frame = if m128 { FRAME_128 } else { FRAME_48 };
+        let mut cfg = EmuCfg::new(m128);
+        cfg.default_rom = false;
+        cfg.fastload = ri % 3 == 0; // (enabled or not: a playing tape is a waveform either way)
+        let mut emu = cfg.build();
+        // ROM: NOPs with an IM 1 handler (INC DE; EI; RET)
+        let mut page = vec![0u8; 16384];
+        page[0x38..0x38 + 3].copy_from_slice(&[0x13, 0xFB, 0xC9]);
+        let mut pages = VecDeque::new();
+        pages.push_back(page.clone());
+        if m128 {
+            pages.push_back(page.clone());
+        }
+        emu.load_rom(VRomSet { pages }).expect("rom");
+        let mix = (ri / 2) % 5;
+        let (prog, ei): (&[u8], bool) = match mix {
+            0 => (&[0xF3, 0x18, 0xFE], false),                               // DI; JR $
+            1 => (&[0xFB, 0x76, 0x18, 0xFC], true),                          // EI; HALT; JR back: halted between interrupts
+            2 => (&[0, 0, 0, 0, 0, 0, 0, 0, 0, 0, 0, 0, 0, 0xC3, 0x00, 0x80], false), // NOPs; JP
+            3 => (&[0x06, 0x00, 0x10, 0xFE, 0x18, 0xFA], false),             // LD B,0; DJNZ $; JR
+            _ => (&[0xFB, 0x76, 0, 0, 0, 0, 0, 0, 0, 0, 0x23, 0x18, 0xF3], true), // EI; HALT; some work; back
+        };
+        poke_bytes(&mut emu, 0x8000, prog);
+        {
+            let c = emu.verif_cpu();
+            c.regs.set_pc(0x8000);
+            c.regs.set_sp(0xBF00);
+            c.regs.set_iff1(ei);
+            c.regs.set_iff2(ei);
+            c.set_im(1);
+        }
+        emu.verif_wait(r.below(frame as u64) as usize);
+        // a short tape: the pilot tones alone last 2 x 100 frames
+        let nb = 1 + r.below(2);
+        let blocks: Vec<Vec<u8>> = (0..nb).map(|_| {
+            let n = *r.pick(&[1usize, 2, 3, 5]);
+            let mut b = r.bytes(n);
+            b[0] = *r.pick(&[0xFFu8, 0x80, 0xA5]);
+            b
+        }).collect();
+        emu.load_tape(Tape::Tap(DynAsset::mem(tap_bytes(&blocks)))).expect("load_tape");
+        out.ev(json!({"ev":"tape","blocks":blocks,"slack":SLACK,"emu":true,"mix":mix,"m": if m128 {128} else {48}}));
+        let mut level = emu.verif_tape().0;
+        let mut since = 0u64;
+        let mut failed = false;
+        // advance by `steps` instructions (or until the deck stops by itself, when asked to), reporting edges
+        let mut advance = |emu: &mut Emu, out: &mut Out, level: &mut bool, since: &mut u64, steps: u64, until_stop: bool, failed: &mut bool| -> bool {
+            let mut changed_while_stopped = false;
+            for _ in 0..steps {
+                let (_, stopped0) = emu.verif_tape();
+                let t0 = emu.verif_frame_clocks();
+                step(emu);
+                let t1 = emu.verif_frame_clocks();
+                let dt = if t1 >= t0 { t1 - t0 } else { t1 + frame - t0 };
+                if dt > SLACK {
+                    tool_error(&format!("emudeck: a step of {dt} T-states exceeds the announced measuring slack"));
+                }
+                let (ear, stopped1) = emu.verif_tape();
+                if !stopped0 {
+                    *since += dt as u64;
+                    if ear != *level {
+                        out.ev(json!({"ev":"edge","dt":*since}));
+                        *since = 0;
+                    }
+                    if stopped1 {
+                        out.ev(json!({"ev":"autostop"}));
+                        *level = ear;
+                        if until_stop {
+                            return changed_while_stopped;
+                        }
+                    }
+                } else if ear != *level {
+                    changed_while_stopped = true;
+                }
+                *level = ear;
+            }
+            if until_stop {
+                *failed = true;
+            }
+            changed_while_stopped
+        };
+        let play = |emu: &mut Emu, out: &mut Out| {
+            out.ev(json!({"ev":"play","was_stopped":emu.verif_tape().1}));
+            emu.play_tape();
+        };
+        // first pass, with a few commands on the way
+        play(&mut emu, out);
+        let per_frame = 17_800u64; // (no frame has more instructions than that: a halted CPU steps in units of 4 T)
+        for _ in 0..r.below(4) {
+            advance(&mut emu, out, &mut level, &mut since, r.below(60 * per_frame), false, &mut failed);
+            match r.below(4) {
+                0 => {
+                    out.ev(json!({"ev":"stop"}));
+                    emu.stop_tape();
+                    let ch = advance(&mut emu, out, &mut level, &mut since, r.below(3 * per_frame), false, &mut failed);
+                    out.ev(json!({"ev":"idle","clocks":0,"changed":ch}));
+                    play(&mut emu, out);
+                }
+                1 => play(&mut emu, out), // PLAY pressed again
+                2 => {
+                    out.ev(json!({"ev":"rewind"}));
+                    if emu.rewind_tape().is_err() {
+                        out.ev(json!({"ev":"taperr","detail":"rewind_tape"}));
+                        failed = true;
+                    }
+                    level = emu.verif_tape().0;
+                    since = 0;
+                    if emu.verif_tape().1 {
+                        play(&mut emu, out);
+                    }
+                }
+                _ => {
+                    // stop pressed twice
+                    out.ev(json!({"ev":"stop"}));
+                    emu.stop_tape();
+                    out.ev(json!({"ev":"stop"}));
+                    emu.stop_tape();
+                    play(&mut emu, out);
+                }
+            }
+        }
+        // to the end of the tape (it stops by itself), a while of silence, and the second pass
+        for pass in 0..2 {
+            if failed {
+                break;
+            }
+            advance(&mut emu, out, &mut level, &mut since, 700 * per_frame, true, &mut failed);
+            if failed {
+                out.ev(json!({"ev":"taperr","detail":"the tape did not come to its end"}));
+                break;
+            }
+            let ch = advance(&mut emu, out, &mut level, &mut since, 2 * per_frame, false, &mut failed);
+            out.ev(json!({"ev":"idle","clocks":0,"changed":ch}));
+            if pass == 0 {
+                play(&mut emu, out);
+            }
+        }
+    }
+}
+
 pub fn run(args: &Args) {
     let mut out = Out::create(&args.str("out", "-"));
     let seed = args.num("seed", 1);
@@ -615,6 +768,7 @@ pub fn run(args: &Args) {
     commands(&mut out, &mut r, args.num("commands", 0), args.num("len", 12));
     fastload(&mut out, &mut r, args.num("fastload", 0), true);
     romload(&mut out, &mut r, args.num("romload", 0));
+    emudeck(&mut out, &mut r, args.num("emudeck", 0));
     let n = out.finish();
     eprintln!("tape: {n} events");
 }
